@@ -1249,7 +1249,7 @@ func main() {
 	{
 		nmal := 500
 		if env.Thorough {
-			nmal = 12000
+			nmal = 6000
 		}
 		arrKinds := []string{"shortArr", "intArr", "longArr", "floatArr", "doubleArr", "textArr"}
 		mutate := func(b []byte) ([]byte, string) {
@@ -1375,7 +1375,7 @@ func main() {
 	{
 		nh := 300
 		if env.Thorough {
-			nh = 6000
+			nh = 4000
 		}
 		sizeBad := false
 		for i := 0; i < nh; i++ {
@@ -1471,7 +1471,7 @@ func main() {
 	{
 		nrb := 400
 		if env.Thorough {
-			nrb = 8000
+			nrb = 4000
 		}
 		for i := 0; i < nrb; i++ {
 			b := rng.Bytes(rng.Intn(40))
